@@ -76,23 +76,7 @@ def scenarios(rng, tier, runner):
         out.append(Scenario("mg-%d" % i, ls, meta))
     return out
 
-def compare(scn, lscn, cr, lr):
-    """as C01: after a decode flagged invalid the values are not compared (the partially read field
-    is not modelled), here including what a merge copies from such a dataset"""
-    from vlib.engine import compare as cmp0
-    c_out, l_out = list(cr[0]), list(lr[0])
-    bad = False
-    for i, l in enumerate(scn.lines):
-        if i >= len(c_out) or i >= len(l_out):
-            break
-        if l.startswith("ds.decode"):
-            f = c_out[i].split()
-            bad = len(f) >= 2 and f[0] == "ok" and f[1] == "1"
-        elif l.startswith("dd.merge") and bad:
-            bad = "sticky"
-        elif bad and (l.startswith("dd.vals") or (bad == "sticky" and l.startswith("ss.vals"))):
-            c_out[i] = l_out[i] = "-"
-    return cmp0(scn, (c_out, cr[1]), (l_out, lr[1]), None)
+compare = c01.compare
 
 def _views(scn, outs, lo, hi):
     """{(kind, k): output} for dd./ss. list/vals lines in [lo, hi)"""
